@@ -38,7 +38,7 @@ def one(patch):
                 if len(obs) < mi and not any(not o.ok for o in obs):
                     raise AnalysisError(f"rule {rn}: {len(obs)} instances found, {mi} confirmed by hand -- the rule would pass vacuously")
                 for o in obs:
-                    if not o.ok and any(k.get("status") == "open" and k.get("rule") == o.rule and k.get("function") == o.func and
+                    if not o.ok and any(k.get("status") == "open" and k.get("rule") == o.rule and k.get("function", "").split("#")[0] == o.func.split("#")[0] and
                                         " ".join(k.get("construct", "").split()) == " ".join(o.construct.split()) for k in KNOWN_OPEN):
                         continue        # the open known finding of the tree itself: a refactoring neither adds nor removes it
                     if not o.ok and (o.rule, o.line, o.construct) not in seen:
